@@ -1,7 +1,7 @@
 (* C03: every image the compiler emits satisfies the structural contract image_wf (the
    independent decoder of ImageSpec.v).  Part 1: what that decoder sees in serialized bytes. *)
-From Portus Require Export ImageSpec CompileFacts EncodeFacts.
-From Portus Require Import ImageFacts TotalFacts.
+From Portus Require Export ImageSpec CompileFacts EncodeFacts NameFacts.
+From Portus Require Import ImageFacts TotalFacts ScopeFacts.
 
 Definition raw_reg (r : reg) : rawreg :=
   match reg_code r with Ok (c, v) => mkRR c v | _ => mkRR 255 0 end.
@@ -328,4 +328,108 @@ Proof.
            destruct (is_tmp_reg lft') eqn:Et; [|unfold tmp_written_i; rewrite Et; reflexivity].
            unfold tmp_written_i. rewrite Et. cbn [negb orb existsb]. rewrite N.eqb_refl. reflexivity.
   - discriminate H.
+Qed.
+
+(* ---------- the three internal flags keep their registers ---------- *)
+
+Definition flagsI (l : list (name * reg)) : Prop :=
+  (exists t, sc_get l (lit "__eventFlag") = Some (Implicit 0 t)) /\
+  (exists t, sc_get l (lit "__shouldContinue") = Some (Implicit 1 t)) /\
+  (exists t, sc_get l (lit "__shouldReport") = Some (Implicit 2 t)).
+
+Definition tnd_ty (t : ty) : Prop := match t with TName s => nd s | _ => True end.
+Definition tnd (l : list (name * reg)) : Prop := Forall (fun kv => tnd_ty (reg_type (snd kv))) l.
+
+Lemma tnd_get l x r : tnd l -> sc_get l x = Some r -> tnd_ty (reg_type r).
+Proof.
+  intros H Hg. unfold tnd in H. rewrite Forall_forall in H.
+  assert (Hin : In (x, r) l).
+  { clear H. induction l as [|[k v] t IH]; cbn [sc_get] in Hg; [discriminate|].
+    destruct (name_eqb k x) eqn:E; [apply name_eqb_eq in E; inversion Hg; subst; left; reflexivity|right; auto]. }
+  exact (H _ Hin).
+Qed.
+
+Lemma tnd_insert l n r : tnd l -> tnd_ty (reg_type r) -> tnd (rf_insert l n r).
+Proof.
+  unfold tnd. induction l as [|[k v] t IH]; intros H Hr; cbn [rf_insert].
+  - constructor; [exact Hr|constructor].
+  - inversion H as [|? ? Hv Ht]; subst. destruct (name_ltb k n); [constructor; [exact Hv|apply IH; auto]|constructor; [exact Hr|exact H]].
+Qed.
+
+Lemma tnd_update l n t : forall r l', tnd l -> tnd_ty t -> rf_update_type l n t = Ok (r, l') -> tnd l'.
+Proof.
+  unfold tnd. induction l as [|[k v] rest IH]; intros r l' H Ht Hu; cbn [rf_update_type] in Hu; [discriminate|].
+  inversion H as [|? ? Hv Hrest]; subst. destruct (name_eqb k n).
+  - destruct v; try discriminate Hu; inversion Hu; subst; constructor; auto.
+  - apply bind_ok_inv in Hu. destruct Hu as ([r1 rest'] & H1 & Hu). inversion Hu; subst. constructor; [exact Hv|eapply IH; eauto].
+Qed.
+
+Lemma nd_not_flag x : nd x -> x <> lit "__eventFlag" /\ x <> lit "__shouldContinue" /\ x <> lit "__shouldReport".
+Proof. intros H. repeat split; intros ->; discriminate H. Qed.
+
+Lemma flagsI_other l l' : flagsI l ->
+  (forall m, m = lit "__eventFlag" \/ m = lit "__shouldContinue" \/ m = lit "__shouldReport" -> sc_get l' m = sc_get l m) -> flagsI l'.
+Proof.
+  intros ((t0 & H0) & (t1 & H1) & (t2 & H2)) Ho. unfold flagsI. rewrite !Ho by auto. eauto 10.
+Qed.
+
+Lemma flagsI_insert l n r : flagsI l -> sc_get l n = None -> flagsI (rf_insert l n r).
+Proof.
+  intros F Hn. eapply flagsI_other; [exact F|]. intros m Hm. apply get_insert_other.
+  intros ->. destruct F as ((t0 & H0) & (t1 & H1) & (t2 & H2)). destruct Hm as [->|[->| ->]]; congruence.
+Qed.
+
+Lemma compile_expr_FI e : forall sc is r sc', enames ename_ok e -> compile_expr e sc = Ok (is, r, sc') ->
+  flagsI (sc_named sc) -> tnd (sc_named sc) ->
+  flagsI (sc_named sc') /\ tnd (sc_named sc') /\ tnd_ty (reg_type r).
+Proof.
+  induction e as [p|c|o l IHl r0 IHr|]; intros sc is r sc' Hn H F T.
+  - destruct p as [b|x|n]; [inversion H; subst; split; [exact F|split; [exact T|exact I]]| |inversion H; subst; split; [exact F|split; [exact T|exact I]]].
+    cbn [compile_expr] in H. destruct (sc_get (sc_named sc) x) as [r1|] eqn:E.
+    + inversion H; subst. split; [exact F|split; [exact T|eapply tnd_get; eauto]].
+    + apply bind_ok_inv in H. destruct H as ([r1 sc1] & H1 & H). inversion H; subst.
+      apply new_local_inv in H1. destruct H1 as (-> & Hnamed & _).
+      cbn [enames] in Hn.
+      assert (Hx : nd x).
+      { destruct Hn as [Hx|[->| ->]]; [exact Hx| |]; destruct F as (_ & (t1 & H1) & (t2 & H2)); congruence. }
+      rewrite Hnamed. split; [apply flagsI_insert; auto|split; [apply tnd_insert; auto|exact Hx]].
+  - discriminate H.
+  - cbn [enames] in Hn. destruct Hn as [Hnl Hnr].
+    apply compile_sexp_inv in H. destruct H as (is1 & lft & sc1 & is2 & rgt & sc2 & H1 & H2 & H3).
+    destruct (IHl _ _ _ _ Hnl H1 F T) as (F1 & T1 & Tl). destruct (IHr _ _ _ _ Hnr H2 F1 T1) as (F2 & T2 & Tr).
+    destruct (is_valop o) eqn:Vo.
+    + apply lower_tail_valop in H3; auto. destruct H3 as (-> & _ & Hnm & _). rewrite Hnm. split; [exact F2|split; [exact T2|]].
+      cbn [reg_type]. unfold tmp_ty. destruct (is_arith o); exact I.
+    + destruct (is_condop o) eqn:Co.
+      * apply lower_tail_condop in H3; auto. destruct H3 as (-> & _ & ->). split; [exact F2|split; [exact T2|exact I]].
+      * destruct o; try discriminate Vo; try discriminate Co; [|discriminate H3].
+        apply lower_tail_bind in H3. destruct H3 as (lft' & Hup & -> & _).
+        destruct Hup as [(s & Hs & Hu)|(_ & -> & ->)]; [|split; [exact F2|split; [exact T2|exact Tl]]].
+        rewrite Hs in Tl. cbn in Tl. destruct (nd_not_flag _ Tl) as (N0 & N1 & N2).
+        pose proof Hu as Hu0. unfold update_type in Hu0. apply bind_ok_inv in Hu0. destruct Hu0 as ([r1 l'] & Hr1 & Hq). inversion Hq; subst. cbn [sc_named].
+        apply update_type_spec in Hu. destruct Hu as ((rr & _ & _ & Hty & _) & _ & Ho & _). cbn [sc_named] in Ho.
+        split; [|split].
+        -- eapply flagsI_other; [exact F2|]. intros m Hm. apply Ho. destruct Hm as [->|[->| ->]]; auto.
+        -- eapply tnd_update; eauto.
+        -- rewrite Hty. exact Tr.
+  - discriminate H.
+Qed.
+
+Lemma compile_body_FI es : forall sc is sc', Forall (enames ename_ok) es -> compile_body es sc = Ok (is, sc') ->
+  flagsI (sc_named sc) -> tnd (sc_named sc) -> flagsI (sc_named sc') /\ tnd (sc_named sc').
+Proof.
+  induction es as [|e r IH]; intros sc is sc' Hn H F T; cbn [compile_body] in H; [inversion H; subst; auto|].
+  inversion Hn as [|? ? He Hr]; subst.
+  destruct e as [p|c|o l r0|].
+  all: try (apply bind_ok_inv in H; destruct H as ([[is1 r1] sc1] & H1 & H);
+            apply bind_ok_inv in H; destruct H as ([rest sc2] & H2 & H); inversion H; subst;
+            destruct (compile_expr_FI _ _ _ _ _ He H1 F T) as (F1 & T1 & _); eapply IH; eauto).
+  eapply IH; eauto.
+Qed.
+
+Lemma compile_flag_FI e sc is sc' : enames ename_ok e -> compile_flag e sc = Ok (is, sc') ->
+  flagsI (sc_named sc) -> tnd (sc_named sc) -> flagsI (sc_named sc') /\ tnd (sc_named sc').
+Proof.
+  intros Hn H F T. apply compile_flag_inv in H. destruct H as (is0 & res & fr & C0 & _).
+  destruct (compile_expr_FI _ _ _ _ _ Hn C0 F T) as (F1 & T1 & _). auto.
 Qed.
